@@ -161,8 +161,8 @@ def ref_ignored(v: Valuation) -> tuple:
     return ("return", "False")
 
 
-def rule_decision(ck: Check, repo: Repo, langs: dict) -> None:
-    r = ck.rule("R2", "decision table of is_path_ignored equals the specified exclusion predicate")
+def rule_decision(ck: Check, repo: Repo, langs: dict, rid: str = "R2") -> None:
+    r = ck.rule(rid, "decision table of is_path_ignored equals the specified exclusion predicate")
     qual = f"{CF}.is_path_ignored"
     fn = repo.func(qual)
     ck.analysed_fn(qual)
@@ -171,9 +171,19 @@ def rule_decision(ck: Check, repo: Repo, langs: dict) -> None:
     leaves = tabulate(fn, hooks, ref_ignored)
     r.floor(20, "leaves of the is_path_ignored decision tree", got=len(leaves))
     seen_bad = set()
+    from ..rules import bool_formula
+    from ..tab import evalf as _evalf, NeedAtom as _Need
     for d, leaf, expected in leaves:
         r.instance("leaf:" + show_valuation(d), {"valuation": show_valuation(d), "ignored": leaf.outcome[1]})
-        if leaf.outcome != expected:
+        outcome = leaf.outcome
+        if outcome[0] == "return" and outcome[1] not in ("True", "False"):
+            # a returned boolean EXPRESSION: evaluate it over the same atoms where they are known
+            try:
+                f = bool_formula(outcome[1], lambda t, n: hooks.atom(t, n, None))
+                outcome = ("return", str(_evalf(f, Valuation(dict(d)))))
+            except (_Need, Exception):
+                pass
+        if outcome[:2] != expected:
             free = [a for a in d if a.startswith("?")]
             key = show_valuation(d)
             if key in seen_bad:
@@ -181,7 +191,7 @@ def rule_decision(ck: Check, repo: Repo, langs: dict) -> None:
             seen_bad.add(key)
             r.violation(
                 qual, f"[{key}]",
-                f"is_path_ignored gives {leaf.outcome[1]} but the specification says {expected[1]}"
+                f"is_path_ignored gives {outcome[1]} but the specification says {expected[1]}"
                 + (f" (depends on unrecognised condition {free})" if free else ""),
                 f"{repo.module(CF).rel}:{leaf.trace[-1] if leaf.trace else fn.lineno}",
                 {"valuation": d, "branch_lines": leaf.trace})
@@ -298,8 +308,14 @@ def subset_normalisation(r, repo: Repo) -> None:
                     " path.resolve(), so a non-canonical spelling (.., symlinked directory) never matches", repo.loc(fn))
     ig = repo.func(f"{CF}.is_path_ignored")
     src = ast.unparse(ig)
-    uses = {"file": "path.resolve() not in subset_files" in src or "path.resolve() in subset_files" in src,
-            "dir": "is_relative_to(path.resolve())" in src}
+    def resolves_to_resolved(arg: ast.AST) -> bool:
+        return expr_text(ig, arg) == "path.resolve()"
+
+    dir_ok = any(isinstance(c, ast.Call) and isinstance(c.func, ast.Attribute) and c.func.attr == "is_relative_to" and c.args
+                 and resolves_to_resolved(c.args[0]) for c in ast.walk(ig))
+    file_ok = any(isinstance(c, ast.Compare) and isinstance(c.ops[0], (ast.In, ast.NotIn)) and ast.unparse(c.comparators[0]) == "subset_files"
+                  and resolves_to_resolved(c.left) for c in ast.walk(ig))
+    uses = {"file": file_ok, "dir": dir_ok}
     r.instance("subset-membership", uses)
     for k, v in uses.items():
         if not v:
